@@ -3,6 +3,7 @@ import os, re, json, fcntl, glob, shutil
 
 ID = "C20"
 PROPS = "Props/C20.v"
+COQ_TIMEOUT = 5400   # Coq build of this property incl. rebuilt dependencies; generous: on a loaded machine a rebuild after an upstream edit took > 1500 s
 GEN = ["conc"]      # Gen/ConcWriteSets.v: static write sets of the exported entry points, regenerated from the source
 # one driver, built twice: plainly (leg below: concurrent result == single-threaded result) and with -race (extra())
 LEGS = [{"driver": "c20", "runner": None, "timeout": 1500}]
